@@ -230,6 +230,68 @@ def c19(c):
                     "distinct = blocks decoded")
 
 
+# --------------------------------------------------------------------------- C15 / C16 / C18 / C20
+def c15(c):
+    c.mc("MC_Stream", mc_cfg("MC_Stream", c.tier), workers=8, timeout=1800, coverage=(c.tier == "quick"))
+    shards = 16 if c.tier == "thorough" else 8
+    files, n, _ = vlib.record("C15", c.tier, c.seed, shards)
+    c.validate("Trace_Stream", "Trace_Stream.cfg", files, ["record", "C15"], procs=PROCS, timeout=3000)
+    c.assumptions += ["the instrumented Read hands out as many bytes as the caller asks for, up to the schedule's fragment limit (1, 2, 3, .., unlimited), "
+                      "so a reader that buffers ahead is seen to consume beyond the line feed",
+                      "schedules: every placement of up to two interrupts, a hard error at every call index, sinks accepting 1..k bytes per call, Ok(0) and "
+                      "hard errors at every call; exhaustive for the short streams, random for streams of up to 20 frames"]
+    c.exhaustive = True
+    return c.finish("model_checking",
+                    "M: the reader/writer contract under every schedule of the bounded model (never past the first line feed, result = Decode(line), frames in "
+                    "order, trailing bytes stay, everything delivered or a proper prefix with an I/O error); V: Frame::read / Frame::write run on instrumented "
+                    "streams under exhaustively enumerated and random schedules; every read()/write() call and every result is validated by TLC against "
+                    "Stream.tla; distinct = I/O calls")
+
+
+def c16(c):
+    c.mc("MC_Serial", mc_cfg("MC_Serial", c.tier), workers=8, timeout=1800, coverage=False)
+    shards = 16 if c.tier == "thorough" else 8
+    files, n, _ = vlib.record("C16", c.tier, c.seed, shards)
+    c.validate("Trace_Serial", "Trace_Serial.cfg", files, ["record", "C16"], procs=PROCS, timeout=3000)
+    c.assumptions += ["the receive side holds the reply line followed by a second valid line, so an extra read or over-read is visible",
+                      "an empty receive side makes read() fail with TimedOut, as a real serial port does"]
+    return c.finish("model_checking",
+                    "M: SerialBus!PM over every message kind x reply tape (all states, all acks, unknown, malformed, empty): one frame out, a read iff a reply "
+                    "is due, exactly one line in, never an invented or dropped reply; V: SerialSignBus over an instrumented SerialPort for all kinds with "
+                    "parameters across their ranges (SendData of every length in thorough), 39 reply tapes, and a failure injected at each port operation; "
+                    "every port call and result validated by TLC; distinct = process_message calls")
+
+
+def c18(c):
+    c.mc("MC_Serial", mc_cfg("MC_Serial", c.tier), workers=8, timeout=1800, coverage=False)
+    files, n, _ = vlib.record("C18", c.tier, c.seed, 1)
+    c.validate("Trace_Pacing", "Trace_Pacing.cfg", files, ["record", "C18"], procs=1, timeout=1800)
+    c.assumptions += ["time is measured with std::time::Instant at the start and end of every port write/read and at process_message return",
+                      "lower bounds are asserted on every paced exchange; for unpaced kinds only the minimum over repeated trials must stay below the delay, "
+                      "so scheduler noise cannot cause an alarm", "some replies are delivered 60 / 130 ms late so that the pause is seen to count from receipt"]
+    return c.finish("model_checking",
+                    "M: on the model the only sleeps are 30 ms after a data chunk and 100 ms after an in-progress report (logical clock); V: a real "
+                    "SerialSignBus sends every message kind repeatedly (data chunks of length 0, 1, 16, 255), with every state and every acknowledgement as "
+                    "replies; the timed trace spec checks both lower bounds on every paced exchange and that the per-kind minimum of every other exchange is "
+                    "below the pacing delay; distinct = timed exchanges")
+
+
+def c20(c):
+    c.mc("MC_Serial", mc_cfg("MC_Serial", c.tier), workers=8, timeout=1800, coverage=False)
+    shards = 16 if c.tier == "thorough" else 6
+    files, n, _ = vlib.record("C20", c.tier, c.seed, shards)
+    c.validate("Trace_Serial", "Trace_Serial.cfg", files, ["record", "C20"], procs=PROCS, timeout=3000)
+    c.assumptions += ["the instrumented SerialDevice has its own Settings type; its state follows the calls actually made; set_baud_rate, read_settings, "
+                      "write_settings and set_timeout can each be made to fail",
+                      "effects are constrained (final device state, error propagation), not the order or number of device calls",
+                      "quick rotates the three constructors over the 936 x 5 product; thorough runs all three on every element"]
+    c.exhaustive = True
+    return c.finish("model_checking",
+                    "M: PortSetup over all 936 prior settings x 5 failure points; V: configure_port (caller's timeout), SerialSignBus::try_new and "
+                    "Odk::try_new on the same product over an instrumented device; TLC checks: Ok => 19200 8N1 no flow control and a timeout applied "
+                    "(the caller's value when direct); any refused call => Err; distinct = set-ups")
+
+
 # --------------------------------------------------------------------------- C08
 def c08(c):
     cfgs = ["thorough", "thorough_auto", "thorough_tiny"] if c.tier == "thorough" else ["quick", "quick_auto"]
@@ -357,4 +419,4 @@ def c09(c):
                     "the recorded conversations are checked by the same monitor in TLC; distinct = conversations")
 
 
-CHECKS = {"C06": c06, "C07": c07, "C19": c19, "C08": c08, "C09": c09, "C10": c10, "C11": c11, "C12": c12, "C13": c13, "C14": c14, "C01": c01, "C02": c02, "C03": c03, "C04": c04, "C05": c05}
+CHECKS = {"C15": c15, "C16": c16, "C18": c18, "C20": c20, "C06": c06, "C07": c07, "C19": c19, "C08": c08, "C09": c09, "C10": c10, "C11": c11, "C12": c12, "C13": c13, "C14": c14, "C01": c01, "C02": c02, "C03": c03, "C04": c04, "C05": c05}
